@@ -35,6 +35,8 @@ MODULES = {
     'C01': ['contracts.pit_layers'],
     'C04': ['contracts.pit_layers'],
     'C12': ['contracts.pit_layers'],
+    'C05': ['contracts.mps_layers'],
+    'C02': ['contracts.mps_layers'],
 }
 
 EXTRACTION_DROPS = ['docstrings', 'type annotations', 'typing.cast (identity)', 'with torch.no_grad() (body kept)',
